@@ -374,7 +374,7 @@ pub fn run(env: &Env, spec: &RunSpec, dir: &Path, keep: bool) -> std::io::Result
     if spec.pager.is_some() && !timed_out {
         // The stub appends "P START" first thing and "P EXIT" last thing.  If delta spawned a
         // pager at all, the shim logged "D SPAWN".
-        let spawned_pager = fs::read_to_string(d("events.log")).map(|s| s.lines().any(|l| l.contains(" D SPAWN ") && !l.contains("probe=1") && l.contains("role=pager"))).unwrap_or(false);
+        let spawned_pager = fs::read_to_string(d("events.log")).map(|s| s.lines().any(|l| l.contains(" D SPAWN ") && l.contains(" ret=0 ") && !l.contains("probe=1") && l.contains("role=pager"))).unwrap_or(false);
         if spawned_pager || log_has(" P START") {
             let t1 = Instant::now();
             while !log_has(" P EXIT") && !log_has(" P QUIT") {
@@ -420,6 +420,11 @@ pub fn run(env: &Env, spec: &RunSpec, dir: &Path, keep: bool) -> std::io::Result
         }
     }
     res.wall_ms = t0.elapsed().as_millis();
+    if let Ok(ms) = std::env::var("DELTASIM_SLOW_MS") {
+        if res.wall_ms > ms.parse().unwrap_or(1000) {
+            eprintln!("SLOW {}ms args={:?} pager={:?} plan={:?} timed_out={} pager_finished={}", res.wall_ms, spec.args, spec.pager.as_ref().map(|p| p.mode.clone()), spec.plan, timed_out, res.pager_finished);
+        }
+    }
     if !keep {
         let _ = fs::remove_dir_all(dir);
     }
